@@ -2,13 +2,13 @@
 from ekw import ctrl_check
 
 PROPERTY = "C03"
-LEVEL_TEXT = ("Lean theorems over the same transition system as C02: crash-freedom of controller bookkeeping sites proved so far "
-              "(no 'double add' in plan); the remaining crash sites, no-idle-wait, progress and the round bound are checked on every run "
-              "by the oracle (watchdog on rounds, wait-with-nothing-outstanding detector, exception capture, shutdown count) under both "
-              "adversaries (any-order and FIFO event delivery) and are open proof obligations (DESIGN.md). Two known findings are replayed.")
-LEVEL_NOTE = ("as C02; liveness is only claimed under FIFO-per-origin delivery on the pinned tree (known finding C03-last-output-overtakes); "
-              "executor fairness is an explicit scheduler argument of SimBridge")
-TECHNIQUE = "Lean 4 invariant proof over a small-step transition system + differential correspondence with the real controller under adversarial schedules (watchdog oracles for liveness)"
+LEVEL_TEXT = ("Lean theorems over the same system as C02, for ANY event order: the controller never raises from its bookkeeping (all six raise/KeyError "
+              "sites unreachable: c03_no_crash), shutdown is issued exactly once and last, nothing is computable/ongoing/unfetched when the loop "
+              "exits, an ongoing task is really queued or has run (no wait on nothing for ongoing tasks). The liveness clauses (progress, bounded "
+              "rounds, all tasks completed at exit) are NOT theorems: they hold only under FIFO delivery on the pinned tree (known finding "
+              "C03-last-output-overtakes) and are decided per run by the watchdog oracle under both adversaries.")
+LEVEL_NOTE = ("modelled, not verified: scheduler/api.py initialize/plan, scheduler/assign.py build_assignment + the pops of _assignment_heuristic, controller/act.py act/flush_queues, controller/notify.py notify/consider_*, impl.run loop skeleton (Model/Ctrl.lean, one Lean function per Python function). Abstracted as an oracle argument validated for admissibility by the model and supplied from what the real run chose: which (idle worker, computable task) pairs the distance/overhead heuristics and host->component migration pick per round, and which `available` host is the transmit source; theorems quantify over all admissible choices. Executors are abstract (Env; SimBridge mirrors it): a dispatched task runs once its inputs are on its host and publishes outputs in index order; transmit/fetch read the source store; purge is immediate. Hypothesis WF: tasks topologically numbered, inputs duplicate-free, >=1 output per task, requested outputs exist, worker ids distinct (the generator guarantees it). The distance/overhead dictionaries of the heuristics (KeyError sites inside _assignment_heuristic/migrate) are outside the model: their crash-freedom is covered only by the exception-capturing oracle on every run.")
+TECHNIQUE = "Lean 4 inductive system invariant (crash-freedom, shutdown discipline) over a small-step transition system + differential correspondence with the real controller under adversarial schedules (watchdog oracles for liveness)"
 LEAN_PROPS = ["EkwVerif.Props.C03"]
 LEAN_DRIVERS = ["Ctrl"]
 RULE = ctrl_check.RULE
